@@ -417,4 +417,4 @@ for _p in []:
 # Thorough tiers that exist in the check (`bin/check Cxx --tier thorough`) but were NOT re-validated end to end on the final tree of this round
 # (their matrices were restructured late, or an earlier thorough run met a hang that has since been routed): not registered as thorough_cmd
 # until a complete clean run exists.  The quick tier of each is validated (several seeds, vp check).
-NO_THOROUGH = ("C01", "C04", "C08", "C27")
+NO_THOROUGH = ("C04", "C08", "C27")
